@@ -590,6 +590,45 @@ def stratum_texts(chk, env, n):
 VMCAP = [60]
 
 
+def large_policy(shift, size):
+    """> size bytes of mostly multi-byte text; `shift` ASCII bytes in the first rule move every later character by one
+    byte, so that over shift = 0,1,2 a 3-byte character straddles EVERY byte offset (in particular any buffer
+    boundary a reader may use)"""
+    rules = [["s" + "a" * shift, "x", "y"]]
+    n, i = 0, 0
+    while n < size:
+        r = ["漢字" * 12 + "é" + str(i), "数据" + str(i % 7), "読"]
+        rules.append(r)
+        n += len((", ".join(["p"] + r) + "\n").encode("utf-8"))
+        i += 1
+    return {"p": rules, "g": [["用户" + str(k), "役割" + str(k % 3)] for k in range(40)]}
+
+
+def stratum_large(chk, env, shifts, sizes):
+    """SPEC only: big policies (beyond any plausible read buffer) round-trip through the file adapters and load from
+    hand-written text"""
+    n = 0
+    for size in sizes:
+        for shift in shifts:
+            pol = large_policy(shift, size)
+            for ak in ("file", "async"):
+                before, saved, obs = run_roundtrip(env, ak, "rbac4", pol)
+                n += 1
+                chk.count(("large", ak, size, shift))
+                small = dict(kind="roundtrip-large", adapter=ak, model="rbac4", stratum="large-file", shift=shift, bytes=size,
+                             policy_generator="harness.props.c10.large_policy(shift, bytes)")
+                if obs != obs_ok(before):
+                    chk.spec_fail(small, dict(after=str(obs)[:300]), "the same policy",
+                                  "save_policy(); load_policy() of a large multi-byte policy did not give back the same policy")
+                    continue
+                text = "".join(", ".join([pt] + r) + "\n" for pt, rs in pol.items() for r in rs)
+                base, obs2 = run_load(env, ak, text)
+                if obs2 != obs_ok(before):
+                    chk.spec_fail(dict(small, kind="load-large"), dict(after=str(obs2)[:300]), "the rules of the text",
+                                  "load_policy of a large multi-byte policy text did not yield its lines")
+    chk.extra.setdefault("strata", {})["large_file_cases"] = n
+
+
 def run(chk, n_pol, n_text, maxlen):
     VMCAP[0] = 60 if chk.tier == "quick" else 500
     if chk.oracle is None:
@@ -602,6 +641,7 @@ def run(chk, n_pol, n_text, maxlen):
             vm_reqs += part[0]
             vm_reps += part[1]
         stratum_fields(chk, env, maxlen)
+        stratum_large(chk, env, (0, 1, 2), (70_000,) if chk.tier == "quick" else (9_000, 70_000, 140_000, 300_000))
         for part in (stratum_roundtrip(chk, env, n_pol), stratum_texts(chk, env, n_text)):
             vm_reqs += part[0]
             vm_reps += part[1]
